@@ -6,6 +6,7 @@ import (
 	"os"
 	"strings"
 
+	"github.com/nspcc-dev/neo-go/pkg/core/mempool"
 	"github.com/nspcc-dev/neo-go/pkg/core/transaction"
 )
 
@@ -86,6 +87,16 @@ func (e *env) replayRunner(c *caseRec) *runner {
 }
 
 func (rn *runner) via(path string, b []byte) verdict {
+	if path == "pooltxwithdata" {
+		tx, err := transaction.NewTransactionFromBytes(b)
+		if err != nil {
+			return verdict{Class: "decode", Err: err.Error()}
+		}
+		if err := rn.n.BC.PoolTxWithData(tx, struct{}{}, mempool.New(4, false, nil), rn.n.BC, nil); err != nil {
+			return verdict{Class: errClass(err), Err: err.Error(), Dec: true}
+		}
+		return verdict{OK: true, Class: "ok", Dec: true}
+	}
 	if path == "verifytx" {
 		tx, err := transaction.NewTransactionFromBytes(b)
 		if err != nil {
